@@ -20,7 +20,7 @@ type SerCase struct {
 	gen.Case
 	WantLen  int        `json:"want_len,omitempty"`
 	WantCS   int        `json:"want_cs"`
-	MutKind  int        `json:"mut_kind"` // 0 none, 1 change/populate a leaf, 2 unset a leaf, 3 append a group entry
+	MutKind  int        `json:"mut_kind"` // 0 none, 1 change/populate a leaf, 2 unset a leaf, 3 append a group entry, 4 take a field out with KeyValue.Set(nil), 5 a Set call the value refuses (wrong Go type): nothing may change
 	MutIndex int        `json:"mut_index"`
 	MutVals  []*gen.Val `json:"mut_vals,omitempty"` // one candidate per value type, indexed by VT
 	MutEntry int        `json:"mut_entry"`          // which existing entry to clone when appending
@@ -67,7 +67,7 @@ func genSerCase(t *rapid.T) *SerCase {
 			sc.WantLen, sc.WantCS = 0, -1
 		}
 	}
-	sc.MutKind = rapid.SampledFrom([]int{0, 1, 1, 1, 2, 3}).Draw(t, "mutKind")
+	sc.MutKind = rapid.SampledFrom([]int{0, 1, 1, 1, 2, 3, 4, 5}).Draw(t, "mutKind")
 	sc.MutIndex = rapid.IntRange(0, 1000).Draw(t, "mutIndex")
 	sc.MutEntry = rapid.IntRange(0, 10).Draw(t, "mutEntry")
 	if sc.MutKind == 1 {
@@ -84,7 +84,7 @@ func genSerCase(t *rapid.T) *SerCase {
 func applyMut(m *fix.Message, sc *SerCase) (string, error) {
 	c := &sc.Case
 	switch sc.MutKind {
-	case 1, 2:
+	case 1, 2, 4, 5:
 		var leaves []build.LeafRef
 		build.Leaves(m.Header().Items(), c.Tpl.Header, c.Header, false, false, &leaves)
 		build.Leaves(m.Body(), c.Tpl.Body, c.Body, false, false, &leaves)
@@ -104,6 +104,25 @@ func applyMut(m *fix.Message, sc *SerCase) (string, error) {
 			}
 			l.P.V = &nv
 			return was + ">" + gen.RouteNames[nv.Route] + ":" + l.N.T.String(), nil
+		}
+		if sc.MutKind == 5 {
+			// a setter called with a Go type the value does not take: it must refuse and leave the field as it is
+			wrong := []any{[]byte("no"), int64(7), 7, float32(1.5), "20240101-00:00:00.000", "Y", "raw"}[l.N.T]
+			if l.KV.Value == nil {
+				return "none", nil
+			}
+			if err := l.KV.Load().Set(wrong); err == nil {
+				return "", fmt.Errorf("%s.Set(%T) did not refuse the value", l.N.T, wrong)
+			}
+			return "refused-set:" + l.N.T.String(), nil
+		}
+		if sc.MutKind == 4 {
+			if l.First || l.P.V == nil {
+				return "none", nil
+			}
+			l.KV.Set(nil) // the field has no value any more
+			l.P.V = nil
+			return "kvset-nil:" + l.N.T.String(), nil
 		}
 		if l.First || l.N.T == gen.TRaw || l.P.V == nil {
 			return "none", nil // never unset an entry's delimiter; Raw has no typed unset
